@@ -220,7 +220,7 @@ def do_report():
         for rnd in sorted(stats):
             st = stats[rnd]
             f.write(f"- round {rnd}: {st['n']} confirmed changes; blind detected {st['blind'] if rnd != '1' else 'n/a'}; reported today {st['now']}\n")
-        f.write(f"- {len(obs)} former seeded changes became behaviour-preserving after a later fix and are kept as must-stay-silent variants: {', '.join(obs)}\n")
+        f.write(f"- {len(obs)} former seeded changes became behaviour-preserving after a later fix (kept as must-stay-silent variants) or lost the statement they edited (kept for the record): {', '.join(obs)}\n")
         f.write("\n| id | round | blind | today | rule(s) | change |\n|---|---|---|---|---|---|\n")
         f.write("\n".join(rows) + "\n")
     print(json.dumps(stats))
